@@ -2,7 +2,12 @@
 from vlib.common import CheckerError
 
 META = {
-    "level": "exploration",
+    "level": "other",
+    "structural": "Deductive (unbounded, one induction step): ESRPrinter._print_Pow is verified from its AST with sympy objects opaque and the recursive calls (_print, parenthesize) "
+                  "used through their contracts: for every Pow node the returned string reads back (under ESR's symbol tables: pow = |a|**b, sqrt) as the power -- sqrt(B) for the "
+                  "exponent S.Half, 1/sqrt(B) for -S.Half, 1/B for -1, B**E exactly when the exponent is an integer, pow(B,E) otherwise -- given that the sub-strings read back as the "
+                  "sub-expressions and that the base of a non-integer power is non-negative; the infix ** is emitted only for integer exponents and an integer exponent never goes through "
+                  "pow() (which would take |base|). The other printer methods (_print_Mul, _print_Add, ...) are not under contract.",
     "text": "Bounded stand-in on the real printer and the two real readers: expressions over x>0, a0..a2 real, integers -3..3, rationals "
             "1/2, -1/2, -3/2, 2/3 built with sympy's evaluating constructors from Add, Sub, Mul, Div, integer powers -3..3, rational and general "
             "powers of bases that are non-negative by construction, Abs (evaluated and unevaluated), exp, log|.|, sqrt|.|, sin — exhaustive "
@@ -15,7 +20,7 @@ META = {
             "_print_Pow and the purity frame are not discharged yet.",
     "note": "Bounded; expressions that sympy's own evaluation takes outside the vocabulary (zoo/nan/I, re/atan2 terms, integers above 1e9) are "
             "dropped before printing and not counted. A-sympy: constructors, sympify and srepr behave as documented.",
-    "technique": "bounded stand-in of the round-trip contract (numeric equality of e and parse(print(e)) under an independent mpmath walk) and of "
+    "technique": "contract-based deductive verification of _print_Pow (AST->VC->SMT, abstract strings and reader axioms) + symbol-table obligations + bounded stand-in of the round-trip contract (numeric equality of e and parse(print(e)) under an independent mpmath walk) and of "
                  "purity (re-printing in-process and across interpreters with different hash seeds); deductive part pending",
 }
 CHECKER = "./bin/check C12"
@@ -64,8 +69,22 @@ def check(run):
                       {"harness": "rt_c12.py", "payload": {"mode": "specs", "specs": [f["spec"]], "workers": 1,
                                                            "hashseeds": [0, 1, 12345] if "hashseed" in f else []}})
     from vlib import deductive as D
+    from contracts import c_printer
+    st_, pfailed, _e = D.verify_function(run, "generation/custom_printer.py", "ESRPrinter._print_Pow", c_printer.print_pow_contract, timeout_ms=8000,
+                                         note="sympy objects opaque (attributes exp/base/is_integer/... uninterpreted), strings abstract (format templates injective), reader axioms for the five "
+                                              "templates; _print / parenthesize through their contracts (induction hypothesis)")
+    if st_ != "unsupported" and D.canary(run, "generation/custom_printer.py", "ESRPrinter._print_Pow", c_printer.print_pow_contract) is False:
+        raise RuntimeError("canary verified: engine vacuous on _print_Pow")
+    run.assume("A-sympy (reader): ESR's symbol tables read sqrt(E), 1/sqrt(E), 1/R, B**E and pow(B,E) as stated in contracts/c_printer.py; precedence(Pow) = 60 > precedence(Mul) = 50; "
+               "parenthesize(item, level, strict=False) returns a string that binds strictly tighter than `level`; S.Half / -S.Half are not integers, -1 is",
+               "identities of powers: b**(1/2) = sqrt(b), b**(-1/2) = 1/sqrt(b), b**(-1) = 1/b; |b| = b for the (non-negative) bases of non-integer powers",
+               "A-str: a string built with `fmt % args` is an injective function of its arguments; the template used is read off the returned term")
+    run.trust("pyvc", "z3 5.1.0")
     sfailed = D.symtab_obligations(run)
     D.report_structural(run, sfailed, "symtab", "pyvc/symtab.py")
-    return run.finish("exploration", META["text"], CHECKER,
+    if pfailed and not run.violations:
+        from checks.C14 import report_unproved
+        report_unproved(run, pfailed, False, "ESRPrinter._print_Pow")
+    return run.finish("other", META["structural"] + " " + META["text"], CHECKER,
                       rule="cases = distinct built expressions (by srepr) that were printed and read back; distinct_nontrivial = those defined at >= 1 of the "
                            "5 sample points (compared there with both readers); the cross-interpreter purity pass re-uses the same expressions and adds cases only")
